@@ -1270,6 +1270,7 @@ class ManifestRecursiveLoader:
                     parent_dir_ids + [dir_id])
 
             new_entries = []
+            name_taken = False
             for f in filenames:
                 # skip dotfiles
                 if f.startswith('.'):
@@ -1278,6 +1279,10 @@ class ManifestRecursiveLoader:
                 fpath = os.path.join(relpath, f)
                 mpath, fe = entry_dict.pop(fpath, (None, None))
                 if fe is not None:
+                    if f == 'Manifest' and fe.tag != 'MANIFEST':
+                        # listed as a regular (or ignored) file, so
+                        # we can not create a Manifest of ours here
+                        name_taken = True
                     if fe.tag == 'IGNORE':
                         continue
                     if fe.tag == 'MANIFEST':
@@ -1321,7 +1326,8 @@ class ManifestRecursiveLoader:
 
             # do we have Manifest in this directory?
             new_ignore_paths = []
-            if want_manifest and manifest_stack[-1][1] != relpath:
+            if (want_manifest and manifest_stack[-1][1] != relpath
+                    and not name_taken):
                 mpath = os.path.join(relpath, 'Manifest')
                 m = self.create_manifest(mpath)
                 manifest_stack.append((mpath, relpath, m))
